@@ -129,6 +129,14 @@ def exports_for(ctx):
     add("dmg-stmt-e", start="Stmt", cx="bodye", maxtok=3 if th else 2, maxdmg=1, dkinds=dall)
     add("types-var", start="Type", cx="var", maxtok=8 if th else 4, maxdmg=1, dkinds=("void", "drop", "dup"))
     add("types-field", start="Type", cx="field", maxtok=6 if th else 4, maxdmg=1, dkinds=("void", "swap", "unbalance") if th else ("void", "swap"))
+    # fields of a classy struct that can name the same-package struct foo (first and "+" section)
+    add("types-fieldq", start="Type", cx="fieldq", maxtok=4, maxdmg=1, dkinds=("void",))
+    add("types-fieldx", start="Type", cx="fieldx", maxtok=4, maxdmg=1, dkinds=("void",))
+    # "+" fields naming the struct itself or a struct declared later, through up to two array levels (the order of the C
+    # struct definitions and the cycle check both come from one topological sort)
+    add("types-fieldfwd", start="Type", cx="fieldfwd", maxtok=9, limit=None if th else 400)
+    # statements inside the second of two sequential loops that share a label
+    add("stmt-inloop2", start="Stmt", cx="inloop2", maxtok=4 if th else 3)
     add("consts", start="ConstVal", cx="const", maxtok=6 if th else 3, maxdmg=1, dkinds=("void", "drop", "dup", "swap"))
     add("decl", start="Decl", cx="top", maxtok=9 if th else 8)
     add("decl-dmg", start="Decl", cx="top", maxtok=6 if th else 5, maxdmg=1, dkinds=("void", "splice", "drop", "swap") if th else ("void", "drop", "swap"))
@@ -364,9 +372,10 @@ def run(ctx, only_sources=None):
         cid = json.dumps(ex.context, sort_keys=True)
         cid = contexts.setdefault(cid, "c%d" % len(contexts))
         toklist = ex.tokens
-        if not th and ex.label.startswith("adj2-") and len(toklist) > 3500:
-            # quick tier: a seeded sample of the token-pair adjacency set (the thorough tier runs all of it)
-            toklist = ctx.rng.sample(sorted(toklist), 3500)
+        lim = 3500 if ex.label.startswith("adj2-") else ex.limit
+        if not th and lim and len(toklist) > lim:
+            # quick tier: a seeded sample of the large exhaustive sets (the thorough tier runs all of them)
+            toklist = ctx.rng.sample(sorted(toklist), lim)
         for o, toks in toklist:
             key = cid + "\x00" + "\x00".join(toks)
             if key not in seen:
